@@ -16,8 +16,15 @@ def ascii_bytes(rng, n, alphabet=b"ABCDEFGHIJKLMNOPQRSTUVWXYZabcdefghijklmnopqrs
     return bytes(rng.choice(alphabet) for _ in range(n))
 
 
-def spec_reply(ctx, rng, version, device_id, reported_ip, port, sn, name, extra=b""):
+def spec_reply(ctx, rng, version, device_id, reported_ip, port, sn, name, extra=b"", zero_fill=False):
+    """zero_fill: every byte a device is free to choose (message id, timestamp, filler, V3 envelope) is zero, as units with
+    an unset clock send them - two different units then differ ONLY in what identifies them"""
     iprev = bytes(reversed(ipaddress.IPv4Address(reported_ip).packed))
+    if zero_fill:
+        line = (f"spec_discover_reply version={version} iprev={hx(iprev)} port={port} sn={hx(sn)} name={hx(name)} "
+                f"extra={hx(extra)} pre={hx(b'\x5a\x5a\x01\x11' + bytes(16))} id={device_id} mid={hx(bytes(14))} tail={hx(bytes(16))} "
+                f"prefix={hx(b'\x83\x70' + bytes(6))} suffix={hx(bytes(16))}")
+        return bytes.fromhex(ctx.driver.ask(line))
     pre = b"\x5a\x5a\x01\x11" + rb(rng, 16)
     line = (f"spec_discover_reply version={version} iprev={hx(iprev)} port={port} sn={hx(sn)} name={hx(name)} "
             f"extra={hx(extra)} pre={hx(pre)} id={device_id} mid={hx(rb(rng, 14))} tail={hx(rb(rng, 16))} "
